@@ -35,6 +35,16 @@ type Sys struct {
 	hist       []string
 	dead       bool
 	viols      []mc.Violation
+	// committed: every (roots, content) pair this execution committed; each must
+	// still open to exactly that content through the SAME state.Database after
+	// whatever was done later (oracle iv: a committed state is immutable)
+	committed []committedState
+}
+
+type committedState struct {
+	a, b, c common.Hash
+	content string
+	at      int
 }
 
 // rootTable is oracle (iii): content dump -> roots, shared by all workers.
@@ -81,6 +91,8 @@ func (s *Sys) Reset() {
 var menus = map[string][]string{
 	"acct": {"bal(A1)", "nonce(A0)", "store(A0)", "code(A1)", "suicide(A0)", "create(A1)", "preimage"},
 	"val":  {"vcreate(V1)", "vdeposit(V0)", "vstatus(V0)", "dlg+(V0)", "dlg+(V2)", "dlg-(V0)", "dlg-(V2)", "wadd", "wrem", "statreward"},
+	// two slots of one account: deleting one leaves a single sibling that, after a reopen, is not loaded
+	"slots": {"store(A0)", "store0(A0)", "store(A0,s1)", "store0(A0,s1)", "bal(A1)"},
 	"stk":  {"bal(A1)", "dlg+(V2)", "vcreate(V1)", "srec(V1)", "srec(D,V0)", "prel(D,V2)"},
 }
 
@@ -146,6 +158,7 @@ func (s *Sys) apply(op string, idx int) string {
 	case "iroot":
 		a, b, c := st.IntermediateRoot(true)
 		s.contentRoots(st, fmt.Sprintf("%x,%x,%x", a[:6], b[:6], c[:6]))
+		s.checkOldRoots("")
 	case "commit", "commit-live":
 		a, b, c, err := st.Commit(true)
 		if err != nil {
@@ -179,14 +192,16 @@ func (s *Sys) apply(op string, idx int) string {
 		if r2 := fmt.Sprintf("%x,%x,%x", x[:6], y[:6], z[:6]); r2 != roots {
 			s.fail("reopened state has other roots than committed", roots+" vs "+r2)
 		}
+		s.checkOldRoots(roots)
+		s.committed = append(s.committed, committedState{a, b, c, live, len(s.hist)})
 		if op == "commit" {
 			// production: the next block opens the state at the committed roots
+			// (the continuing object is left COLD: it is not read here, so that later
+			// ops meet unloaded trie nodes exactly as the next block's execution does)
 			re2, _ := state.New(a, b, c, s.db)
 			s.active = re2
-			s.contentRoots(re2, roots)
-		} else {
-			s.contentRoots(st, roots)
 		}
+		s.contentRootsOf(live, roots)
 	case "copy>orig", "copy>copy":
 		cp := st.Copy()
 		s.copied = true
@@ -214,9 +229,37 @@ func (s *Sys) apply(op string, idx int) string {
 	return ""
 }
 
+// checkOldRoots is oracle (iv): every state committed earlier in this execution
+// still opens, through the same state.Database, to the content it had when it
+// was committed (RPC, side-chain import and reorgs open old roots while the
+// head state object goes on being written).
+func (s *Sys) checkOldRoots(skip string) {
+	for _, c := range s.committed {
+		if fmt.Sprintf("%x,%x,%x", c.a[:6], c.b[:6], c.c[:6]) == skip {
+			continue // the roots just committed: compared above
+		}
+		re, err := state.New(c.a, c.b, c.c, s.db)
+		if err != nil {
+			s.fail("earlier committed roots no longer open", err.Error())
+			continue
+		}
+		var got string
+		if m, w := mc.CatchStack(func() { got = content(re) }); m != "" {
+			s.fail(fmt.Sprintf("panic reading an earlier committed state at=%s msg=%s", w, trimNum(m)), m)
+			continue
+		}
+		s.r.Count("old_roots_reopened", 1)
+		if got != c.content {
+			s.fail("state committed earlier reads differently after later writes: "+diffFields(c.content, got),
+				fmt.Sprintf("committed after op %d: %s\nopened now: %s", c.at, c.content, got))
+		}
+	}
+}
+
 // contentRoots feeds oracle (iii): two states with the same content must have the same roots.
-func (s *Sys) contentRoots(st *state.StateDB, roots string) {
-	content := content(st)
+func (s *Sys) contentRoots(st *state.StateDB, roots string) { s.contentRootsOf(content(st), roots) }
+
+func (s *Sys) contentRootsOf(content, roots string) {
 	s.table.mu.Lock()
 	e, ok := s.table.m[content]
 	if !ok {
@@ -304,17 +347,17 @@ func (s *Sys) Key() string           { return "" }
 
 func Run(r *mc.Run) {
 	r.Level = "model_checking"
-	r.Rule = "every op sequence up to the stated depth over each sub-alphabet (mutations + finalise + intermediate root + commit (continue on reopened / on live) + one copy point (continue on original / on copy)) runs on a fresh real StateDB over a fresh database; oracles: reopened==live at every commit, copy==original at the copy point and the other side unchanged after every later op, content->roots table over all executions; distinct = distinct persistent contents whose roots were computed"
-	depth := map[string]int{"acct": 5, "val": 5, "stk": 5}
+	r.Rule = "every op sequence up to the stated depth over each sub-alphabet (mutations + finalise + intermediate root + commit (continue on reopened / on live) + one copy point (continue on original / on copy)) runs on a fresh real StateDB over a fresh database; oracles: reopened==live at every commit, copy==original at the copy point and the other side unchanged after every later op, content->roots table over all executions, and every state committed earlier in the execution reopened (same state.Database) after every later commit / intermediate root still has the content it was committed with; distinct = distinct persistent contents whose roots were computed"
+	depth := map[string]int{"acct": 5, "val": 5, "stk": 5, "slots": 5}
 	if !r.Quick() {
-		depth = map[string]int{"acct": 6, "val": 6, "stk": 6}
+		depth = map[string]int{"acct": 6, "val": 6, "stk": 6, "slots": 7}
 		r.SetBudget(40 * 60e9)
 	} else {
 		r.SetBudget(240e9)
 	}
 	r.SetExtra("depth_per_alphabet", depth)
 	r.Assume("validator records are only mutated through production call patterns; RemoveValidator excluded (no production caller)")
-	for _, a := range []string{"val", "stk", "acct"} {
+	for _, a := range []string{"slots", "val", "stk", "acct"} {
 		a := a
 		t := &rootTable{m: map[string]rootEntry{}}
 		f := func() mc.System { return newSys(r, a, t) }
